@@ -124,11 +124,12 @@ Args(e)   == <<e.t, e.key, e.nc, e.blind, e.salt>>
 NoBlind(e) == <<e.t, e.key, e.nc, e.salt>>
 
 DetObl(e) == <<
-  <<"det-run-ok", e.ok>>,
+  \* (a request made with a zero-length salt cannot be finalized: the PSS check expects the full salt length)
+  <<"det-run-ok", e.ok \/ (e.salt \in {"empty", "nil"} /\ e.req # "")>>,
   <<"create-is-pure", \A p \in reqTab : p[1] = Args(e) => p[2] = e.req>>,
   <<"blind-changes-request", \A p \in reqTab : (NoBlind([t |-> p[1][1], key |-> p[1][2], nc |-> p[1][3], salt |-> p[1][5]]) = NoBlind(e)
                                                 /\ p[1][4] # e.blind) => p[2] # e.req>>,
-  <<"token-ignores-blind", \A p \in tokTab : p[1] = NoBlind(e) => p[2] = e.tok>>,
+  <<"token-ignores-blind", e.ok => \A p \in tokTab : p[1] = NoBlind(e) => p[2] = e.tok>>,
   \* a blinded element is a function of (key, nonce, blind) wherever it stands in a batch, and of nothing else
   <<"element-is-function-of-its-own-blind", \A i \in 1..Len(e.elems) : \A p \in elemTab :
         (p[1] = <<e.t, e.key, e.elems[i][1], e.elems[i][2]>>) <=> (p[2] = e.elems[i][3])>> >>
@@ -138,6 +139,17 @@ StressObl(e) == <<
   <<"det-run-ok", e.errors = 0>>,
   <<"create-is-pure", e.distinct_req = 1>>,
   <<"token-ignores-blind", e.distinct_tok = 1>> >>
+
+\* sequences of honest issuances through long-lived objects (one issuer, one request object on the issuer side, the
+\* client's tokens kept): every run completes with the right number of valid tokens, and tokens returned earlier
+\* still read and verify as they did
+SeqRunObl(e) == <<
+  <<"quiet", e.panic = "">>,
+  <<"honest-completes", e.ok>>,
+  <<"count", e.ok => e.count = e.n>>,
+  <<"token-verifies-under-pinned-key", e.ok => e.valid>> >>
+SeqRetainedObl(e) == <<
+  <<"returned-tokens-keep-their-value", e.same /\ e.valid>> >>
 
 VectorObl(e) == <<
   <<"vector-request-bytes", e.req_eq>>,
@@ -151,6 +163,8 @@ Obl(e) ==
     [] e.op = "Det" -> DetObl(e)
     [] e.op = "DetNew" -> <<>>
     [] e.op = "DetStress" -> StressObl(e)
+    [] e.op = "SeqRun" -> SeqRunObl(e)
+    [] e.op = "SeqRetained" -> SeqRetainedObl(e)
     [] e.op = "Vector" -> VectorObl(e)
     [] OTHER -> << <<"unknown-event", FALSE>> >>
 
@@ -163,9 +177,9 @@ TNext ==
          f == Failed(e)
      IN /\ IF f = {} THEN TRUE ELSE PrintT("REJECT " \o ToString(l) \o " " \o e.op \o " " \o ToString(f))
         /\ CASE e.op = "DetNew" -> reqTab' = {} /\ tokTab' = {} /\ elemTab' = {}
-             [] e.op = "Det" /\ e.ok ->
+             [] e.op = "Det" /\ e.req # "" ->
                   /\ reqTab' = reqTab \cup {<<Args(e), e.req>>}
-                  /\ tokTab' = tokTab \cup {<<NoBlind(e), e.tok>>}
+                  /\ tokTab' = IF e.ok THEN tokTab \cup {<<NoBlind(e), e.tok>>} ELSE tokTab
                   /\ elemTab' = elemTab \cup {<<<<e.t, e.key, e.elems[i][1], e.elems[i][2]>>, e.elems[i][3]>> : i \in 1..Len(e.elems)}
              [] OTHER -> UNCHANGED <<reqTab, tokTab, elemTab>>
   /\ IF l = Len(Trace) THEN PrintT("DONE " \o ToString(l)) ELSE TRUE
